@@ -40,6 +40,9 @@ TRUSTED_BASE = [
 ]
 
 
+DROPS = {"harnesses": set(), "blocks": set(), "notes": [], "attempt": 0}
+
+
 def log(*a):
     print(*a, flush=True)
 
@@ -337,6 +340,9 @@ def main():
 
     try:
         ovs = weave.load_overlays()
+        all_harness_names = {h.name for ov in ovs.values() for h in ov.harnesses}
+        if DROPS["harnesses"] or DROPS["blocks"]:
+            weave.apply_drops(ovs, DROPS["harnesses"], DROPS["blocks"])
         hs = select(ovs, prop, tier, args.only)
         if not hs:
             log(f"[{prop}] no harness selected")
@@ -348,7 +354,7 @@ def main():
 
     base = os.environ.get("VERIF_SCRATCH") or tempfile.gettempdir()
     scratch = tempfile.mkdtemp(prefix=f"eg-verif-{prop}-", dir=base)
-    undecided = []
+    undecided = list(DROPS["notes"])
     import threading
     wd_stop = threading.Event()
     threading.Thread(target=memory_watchdog, args=(scratch, wd_stop, int(os.environ.get("VERIF_MEM_GB", "14"))), daemon=True).start()
@@ -360,6 +366,16 @@ def main():
         except weave.LostAnchor as e:
             log(f"[{prop}] LOST-ANCHOR (undecided): {e}")
             return finish(prop, tier, seed, pc, [], {}, [], [f"lost anchor: {e}"], t_start, [], args, sel, {}, 2)
+        if weave.LOST:
+            gone = set()
+            for e in weave.LOST:
+                gone.update(e["dropped_harnesses"])
+                log(f"[{prop}] LOST-ANCHOR of contracted function `{e['function']}` (its contract is not attached; "
+                    f"{len(e['dropped_harnesses'])} harnesses that name it are left out and undecided): {e['anchor']}")
+                undecided.append(f"contract anchor lost: {e['function']} ({e['anchor']}); harnesses left out: " + ", ".join(sorted(set(e["dropped_harnesses"]))))
+            hs = [h for h in hs if h.name not in gone]
+            if not hs:
+                return finish(prop, tier, seed, pc, [], {}, [], undecided, t_start, [], args, sel, {}, 2)
         log(f"[{prop}] woven {sum(wstats.values())} lines into {len(wstats)} files of a scratch copy; {len(hs)} harnesses, tier {tier}")
 
         groups = {}
@@ -439,6 +455,25 @@ def main():
                     log(tail)
                     undecided.append(f"group {crate}/{gi}: no results (build error or crash)")
                 results.update(r)
+
+        # The woven code does not compile against this tree (a function used by a harness was renamed, removed
+        # or changed its signature): leave out exactly the harnesses / overlay blocks the compiler rejects and
+        # run again, so that the remaining obligations are still decided on the changed code. What is left out
+        # is undecided (exit 2 unless a violation is found).
+        failed_builds = [t for t in logs if t and ("could not compile" in t or "Failed to execute cargo" in t)]
+        if failed_builds and DROPS["attempt"] < 12:
+            dh, db, outside = weave.locate_errors(scratch, "\n".join(failed_builds), ovs, all_harness_names)
+            dh -= DROPS["harnesses"]
+            db -= DROPS["blocks"]
+            if (dh or db) and not outside:
+                DROPS["attempt"] += 1
+                DROPS["harnesses"] |= dh
+                DROPS["blocks"] |= db
+                note = ("woven code did not compile; left out (undecided): harnesses " + (", ".join(sorted(dh)) or "-") +
+                        "; overlay blocks " + (", ".join(f"{u}@{f}#{n}" for u, f, n in sorted(db)) or "-"))
+                DROPS["notes"].append(note)
+                log(f"[{prop}] BUILD-ERROR in woven harness code, retry {DROPS['attempt']}: {note}")
+                return main()
 
         # Verus lemma files (spec-level arithmetic over mathematical integers; they never read /repo and a
         # failure there is never a violation: exit 2)
